@@ -65,6 +65,26 @@ func (e *Exec) Input(name, kind string, t types.Type) *Term {
 	if v, ok := e.inputBy[name]; ok {
 		return v
 	}
+	if e.Concrete != nil {
+		// interpreter replay: inputs take the values of a solver model
+		sv := e.Concrete[name]
+		var c *Term
+		switch kind {
+		case "bool":
+			c = e.S.Bool(sv == "true")
+		case "int", "byte":
+			bi, ok := new(big.Int).SetString(sv, 10)
+			if !ok {
+				bi = new(big.Int)
+			}
+			c = e.F.IntConst(bi, t)
+		case "float":
+			f, _ := strconv.ParseFloat(sv, 64)
+			c = e.F.FloatConst(f)
+		}
+		e.inputBy[name] = c
+		return c
+	}
 	var so Sort
 	switch kind {
 	case "int", "byte":
